@@ -67,6 +67,11 @@ class Encoder:
         self.prog: dict[str, dict] = {}
         self.features: set[str] = set()
 
+    helpers_of = None
+    stmt_classes: list = []
+    ret_class = None
+    cb: list = []
+
     def has_source(self, fn) -> bool:
         mod = sys.modules.get(fn.__module__)
         f = getattr(mod, "__file__", None)
@@ -85,6 +90,9 @@ class Encoder:
         q = self.qual(fn)
         if q in self.prog:
             return q
+        outermost = self.helpers_of is None
+        if outermost:
+            self.helpers_of = q
         mod = sys.modules[fn.__module__]
         src = Path(mod.__file__).read_text()
         tree = ast.parse(src)
@@ -104,7 +112,42 @@ class Encoder:
         body = [self.stmt(s, mod, local, glob) for s in node.body]
         self.prog[q] = {"name": q, "params": params, "body": body, "globals": [[k, v] for k, v in glob.items()],
                         "nposonly": len(a.posonlyargs), "otherparams": other}
+        if outermost:
+            # the function asked for (not its callees): the real helpers on the (branch, rest) pairs `_handle_fn_body` meets
+            self.stmt_classes = [type(s).__name__ for s in node.body]
+            ret = [s for s in node.body if not (isinstance(s, ast.Pass) or (isinstance(s, ast.Expr) and isinstance(s.value, ast.Constant)))]
+            self.ret_class = (type(ret[0].value).__name__ if len(node.body) <= 2 and len(ret) == 1 and isinstance(ret[0], ast.Return)
+                              and ret[0].value is not None and (len(node.body) == 1 or ret[0] is node.body[1]) else None)
+            self.cb = []
+            self._branch_pairs(node.body, body)
         return q
+
+    def _branch_pairs(self, nodes, enc):
+        """every (branch, rest) pair `_handle_fn_body` passes to `_check_branch`, with the real helper's verdicts"""
+        from mxlpy.meta import source_tools as st
+
+        chk = getattr(st, "_check_branch", None)
+        ar = getattr(st, "_always_returns", None)
+        for i, (n, e) in enumerate(zip(nodes, enc)):
+            if not isinstance(n, ast.If) or e[0] != "if":
+                continue
+            rest_n, rest_e = list(nodes[i + 1:]), list(enc[i + 1:])
+            branches = [(n.body, e[2])]
+            if n.orelse and not (len(n.orelse) == 1 and isinstance(n.orelse[0], ast.If)):
+                branches.append((n.orelse, e[3]))
+            elif n.orelse:
+                # elif: pushed back in front of the remaining body
+                self._branch_pairs([n.orelse[0], *rest_n], [e[3][0], *rest_e])
+            for bn, be in branches:
+                if chk is not None and len(self.cb) < 24:
+                    try:
+                        chk(bn, rest_n)
+                        ok = True
+                    except NotImplementedError:
+                        ok = False
+                    self.cb.append({"b": be, "rest": rest_e, "real_ok": ok,
+                                    "real_ret": None if ar is None else bool(ar(bn))})
+                self._branch_pairs(bn, be)
 
     # -- expressions
     def gval(self, obj):
@@ -736,11 +779,28 @@ def hcomb(a, b):
 
 
 class PC:
-    """class attribute and instance attribute differ (F-C06-16: the translator instantiates the class)"""
+    """class attribute and instance attribute differ (F-C06-16: the translator instantiated the class)"""
     a = 1.0
 
     def __init__(self):
         self.a = 2.0
+
+
+class PD:
+    """an attribute that exists on instances only: `PD.b` raises AttributeError in Python"""
+
+    def __init__(self):
+        self.b = 4.0
+
+
+class PF:
+    """a class attribute that is itself a class, and one that is an instance"""
+    inner = PC
+    inst = PC()
+    c = 0.5
+
+
+pc_inst = PC()
 '''
 
 # a second module with the same names bound to other functions / values (function-local imports pick from here)
@@ -874,7 +934,7 @@ class Gen:
     def header(self) -> str:
         return (
             "import math\nimport numpy as np\n"
-            f"import {self.helper_mod} as hp\nfrom {self.helper_mod} import hmul, hclip, HD, PC\n"
+            f"import {self.helper_mod} as hp\nfrom {self.helper_mod} import hmul, hclip, HD, PC, PD, PF, pc_inst\n"
             "from mxlpy import fns\nfrom mxlpy.fns import mass_action_1s\n\n"
             "K1 = 2.0\nK2 = 0.5\nK3 = -4.0\nNI = 3\n\n"
         )
@@ -1313,6 +1373,28 @@ def t_class_attr(x):
     return x * PC.a
 
 
+def t_class_attr2(x, y):
+    if x > PC.a:
+        return y * PC.a + PF.c
+    return hp.PC.a - y
+
+
+def t_class_nested_cls(x):
+    return x * PF.inner.a
+
+
+def t_class_nested_inst(x):
+    return x * PF.inst.a + PF.c
+
+
+def t_inst_attr(x):
+    return x * pc_inst.a - hp.pc_inst.a
+
+
+def t_class_inst_only(x):
+    return x * PD.b
+
+
 def t_ret_not_last(s, vmax, km):
     if s > km:
         v = vmax
@@ -1646,6 +1728,7 @@ def _observe_all(job, mod, gen_modules, rng, fns, sympy):
             obs.append(rec)
         needed = {k.split(":", 1)[1] for k in enc.prog if k.split(":", 1)[0] == job["mod"]}
         out.append({"fn": fname, "q": q, "prog": list(enc.prog.values()), "params": params, "features": sorted(enc.features),
+                    "cb": enc.cb, "stmt_classes": enc.stmt_classes, "ret_class": enc.ret_class,
                     "min_src": fsrc if job.get("external") else minimal_source(job["sources"][job["mod"]], needed),
                     "points": [[rs(v) for v in p] for p in points], "py": pyv, "obs": obs, "src": fsrc})
     return out
